@@ -88,6 +88,9 @@ def ctext(c):
         return t
     if is_byt(c):
         return 'b"%s"' % dc.esc(c[2][1])
+    if is_tagged(c, STRUCT) or is_tagged(c, MAPT):
+        body = ", ".join("%s: %s" % (ctext(e[1]), ctext(e[2])) for e in c[2][1])
+        return ("{%s}" if is_tagged(c, STRUCT) else "[%s]") % body
     if k == "pair":
         return "fn:pair(%s, %s)" % (ctext(c[1]), ctext(c[2]))
     if k == "list":
@@ -111,6 +114,13 @@ def chash(c):
         return struct.unpack("<Q", struct.pack("<d", flt_value(c)))[0]
     if is_byt(c):
         return dc.fnv1_64(c[2][1].encode("utf-8"))
+    if is_tagged(c, STRUCT) or is_tagged(c, MAPT):
+        # entries in the canonical (sorted) order of the representation; Go's own entry order may differ, the
+        # value is only used to recognise hash-equal facts (F8) among generated values
+        h, sh = 0, (10 if is_tagged(c, STRUCT) else 9)
+        for e in reversed(c[2][1]):
+            h = dc.szudzik((chash(e) << sh) & dc.M64, h)
+        return h
     if k == "pair":
         return dc.szudzik((chash(c[1]) << 7) & dc.M64, chash(c[2]))
     if k == "list":
@@ -178,7 +188,7 @@ def do_text(d):
 def rule_text(c):
     if not c.get("do"):
         return dc.clause_text(c)
-    s = dc.atom_text(c["head"]) + " :- " + ", ".join(dc.premise_text(p) for p in c["body"])
+    s = dc.atom_text(c["head"]) + " :- " + ", ".join(premise_text(p) for p in c["body"])
     return s + " |> " + do_text(c["do"]) + "."
 
 
@@ -208,7 +218,11 @@ class RecFresh(dc._Fresh):
 
 
 def rule_vars(c):
-    acc = dc.clause_vars(c)
+    acc = dc.clause_vars({"head": c["head"], "body": [p for p in c["body"] if p[0] not in ("bi", "nbi")], "let": c.get("let", [])})
+    for p in c["body"]:
+        if p[0] in ("bi", "nbi"):
+            for t in p[2]:
+                dc.term_vars(t, acc)
     d = c.get("do")
     if d:
         acc |= set(d["keys"])
@@ -227,6 +241,11 @@ def cq_rule(c):
     fresh = RecFresh(rule_vars(c))
     body = []
     for p in c["body"]:
+        if p[0] in ("bi", "nbi"):
+            # a built-in goal is an atom whose predicate id is the id of the built-in's name (Datalog/AggBuiltin.v)
+            body.append(C("PAtom" if p[0] == "bi" else "PNeg",
+                          C("mkAtom", name_id(p[1]), [dc.cq_term(t, fresh) for t in p[2]])))
+            continue
         q = [p[0], map_atom(p[1])] + p[2:] if p[0] in ("atom", "neg") else p
         body.append(dc.cq_premise(q, fresh))
     cl = C("mkClause", dc.cq_atom(map_atom(c["head"]), fresh), body,
@@ -268,6 +287,9 @@ def conv_const(c):
         return ["list", [conv_const(x) for x in c[1]]]
     if k == "b":
         return byt(c[1])
+    if k in ("struct", "map"):
+        # entries sorted by label: one representation whatever entry order the Go constant has
+        return _entries(STRUCT if k == "struct" else MAPT, [(conv_const(e[0]), conv_const(e[1])) for e in c[1]])
     if k == "f":
         if c[1] == "nan":
             return ["pair", ["name", F64], ["name", "/nan"]]
@@ -930,6 +952,469 @@ def cq_cyc(prog, out):
     case = C("mkCase", [cq_rule(c) for c in prog["clauses"]], [], [], [cq_fact(f) for f in prog.get("init", [])],
              FUEL, [tuple(x) for x in sort_cols(prog)], obs)
     return coq((case, out["accepted"] + out["other_err"]))
+
+
+# ------------------------------------------------------------------ built-in predicate atoms in aggregating bodies (round 2)
+# rewrite.getVars collects the columns of the internal `__tmp` relation from the body's atoms - built-in
+# atoms included, because :match_pair :match_cons :list:member :match_field :match_entry BIND variables at
+# their output places. The stream below makes such output variables group keys and reducer arguments.
+#   premise ["bi", ":match_pair", [term, ...]]   positive built-in atom      ["nbi", ...] negated (:match_nil)
+# Column types: "N" number, "A" name, ("P", t1, t2) pair, ("L", t) list, ("S", ((label, t), ...)) struct,
+# ("M", kt, vt) map. Structs and maps are tagged pairs in the model (Datalog/AggBuiltin.v).
+STRUCT = "/__struct"
+MAPT = "/__map"
+LABELS = ["/a", "/b", "/c"]
+
+
+def _entries(tag, entries):
+    es = sorted(entries, key=lambda kv: json.dumps(kv[0]))
+    return ["pair", ["name", tag], ["list", [["pair", k, v] for k, v in es]]]
+
+
+def strct(entries):
+    return _entries(STRUCT, entries)
+
+
+def mapc(entries):
+    return _entries(MAPT, entries)
+
+
+def is_tagged(c, tag):
+    return c[0] == "pair" and c[1] == ["name", tag] and c[2][0] == "list"
+
+
+def premise_text(p):
+    if p[0] == "bi":
+        return "%s(%s)" % (p[1], ", ".join(dc.term_text(t) for t in p[2]))
+    if p[0] == "nbi":
+        return "!%s(%s)" % (p[1], ", ".join(dc.term_text(t) for t in p[2]))
+    return dc.premise_text(p)
+
+
+def is_scalar(t):
+    return t in ("N", "A")
+
+
+class BiGen:
+    """Programs whose aggregating rules destructure pair / list / struct / map valued columns with built-in
+    atoms. Avoided by construction: the same variable at two output places and negated destructuring goals
+    (N105-N108, C04's findings), 0 inside structured values and heterogeneous columns (hash-equal facts, F8),
+    duplicate labels / keys in a struct / map (N9), function applications at input places, > 3 aggregating
+    rules per head."""
+
+    def __init__(self, rng):
+        self.rng = rng
+        self.sig = {}
+        self.init = []
+        self.clauses = []
+        self.layers = []
+        self.features = set(["builtin-atoms"])
+        self.npred = 0
+
+    def new_pred(self, sig):
+        k = self.npred
+        self.npred += 1
+        self.sig[k] = tuple(sig)
+        return k
+
+    # -- values
+    def value(self, t, top=False):
+        r = self.rng
+        if t == "N":
+            return dc.num(r.choice([0, 1, 2, 3]) if top else r.choice([1, 2, 3, 4, 5, 6, 7]))
+        if t == "A":
+            return dc.name(r.choice(dc.NAMES[:3] if top else dc.NAMES))
+        if t[0] == "P":
+            return dc.pair(self.value(t[1]), self.value(t[2]))
+        if t[0] == "L":
+            n = r.choice([0, 1, 1, 2, 2, 3, 3, 4])
+            return dc.lst([self.value(t[1]) for _ in range(n)])
+        if t[0] == "S":
+            es = [(dc.name(l), self.value(ft)) for l, ft in t[1] if r.random() < 0.8]
+            if not es:
+                l, ft = t[1][0]
+                es = [(dc.name(l), self.value(ft))]
+            return strct(es)
+        if t[0] == "M":
+            keys = r.sample(LABELS if t[1] == "A" else [1, 2, 3], r.randint(1, 3))
+            return mapc([(dc.name(k) if t[1] == "A" else dc.num(k), self.value(t[2])) for k in keys])
+        raise ValueError(t)
+
+    def edb(self, sig):
+        """An extensional predicate; first column = small key, the other columns of the given types."""
+        r = self.rng
+        p = self.new_pred(sig)
+        seen = set()
+        for _ in range(r.randint(3, 8)):
+            f = dc.fact(p, *[self.value(t, top=(i == 0)) for i, t in enumerate(sig)])
+            t = fact_text(f)
+            if t not in seen:
+                seen.add(t)
+                self.init.append(f)
+        return p
+
+    def base(self):
+        r = self.rng
+        kt = lambda: r.choice(["N", "N", "A"])
+        st = lambda: r.choice(["N", "N", "A"])
+        menu = {
+            "pair": lambda: (kt(), ("P", st(), "N")),
+            "list": lambda: (kt(), ("L", r.choice(["N", "N", "N", "A"]))),
+            "list3": lambda: (kt(), ("L", "N"), "N"),
+            "struct": lambda: (kt(), ("S", (("/a", "N"), ("/b", st()), ("/c", ("L", "N"))))),
+            "map": lambda: (kt(), ("M", r.choice(["A", "A", "N"]), "N")),
+            "listpair": lambda: (kt(), ("L", ("P", st(), "N"))),
+            "pairlist": lambda: (kt(), ("P", st(), ("L", "N"))),
+            "plain": lambda: (kt(), "N"),
+        }
+        kinds = ["plain"] + r.sample([k for k in menu if k != "plain"], r.randint(2, 4))
+        if r.random() < 0.5:
+            kinds.append("plain")
+        for k in kinds:
+            self.edb(menu[k]())
+        # unary key predicates for :match_entry / :match_field with a bound key variable
+        for ty in ("A", "N"):
+            p = self.new_pred((ty,))
+            vals = LABELS if ty == "A" else [1, 2, 3]
+            for v in r.sample(vals, r.randint(1, 3)):
+                self.init.append(dc.fact(p, dc.name(v) if ty == "A" else dc.num(v)))
+
+    # -- one aggregating body
+    def body(self, lower, force_plain=False):
+        """Returns (premises, env, outs): env var -> type, outs = variables bound by a built-in output place."""
+        r = self.rng
+        env, outs, body = {}, set(), []
+        nv = [0]
+
+        def fresh(t):
+            nv[0] += 1
+            env[nv[0]] = t
+            return nv[0]
+
+        def scal(t=None):
+            return [v for v, ty in env.items() if is_scalar(ty) and (t is None or ty == t)]
+
+        def add_atom(p, join=0.5, keep=None):
+            args = []
+            for i, t in enumerate(self.sig[p]):
+                x = r.random()
+                if is_scalar(t) and scal(t) and x < join:
+                    args.append(dc.var(r.choice(scal(t))))
+                elif is_scalar(t) and x > 0.9 and (keep is None or i not in keep):
+                    args.append(["wild"] if r.random() < 0.7 else dc.cst(self.value(t, top=(i == 0))))
+                elif t == "F":
+                    args.append(["wild"])
+                else:
+                    args.append(dc.var(fresh(t)))
+            body.append(["atom", dc.atom(p, *args)])
+
+        structured = [p for p in lower if any(not is_scalar(t) and t != "F" for t in self.sig[p])]
+        plainp = [p for p in lower if all(is_scalar(t) for t in self.sig[p])]
+        if force_plain or not structured:
+            add_atom(r.choice(plainp or lower), join=0)
+            if r.random() < 0.5 and plainp:
+                add_atom(r.choice(plainp))
+        else:
+            p = r.choice(structured)
+            add_atom(p, join=0, keep=[i for i, t in enumerate(self.sig[p]) if not is_scalar(t)])
+            if r.random() < 0.2:
+                add_atom(r.choice(structured), join=0.8)
+        # destructuring goals: every structured variable gets 0-2 goals; their outputs may be destructured further
+        todo = [v for v, t in env.items() if not is_scalar(t)]
+        depth = 0
+        nbi = 0
+        while todo and depth < 6:
+            depth += 1
+            v = todo.pop(0)
+            t = env[v]
+            if nbi >= 1 and r.random() < 0.35:
+                continue
+            out = lambda ty: (["wild"] if r.random() < 0.12 else None) or dc.var(fresh(ty))
+            new = []
+            if t[0] == "P":
+                a, b = out(t[1]), out(t[2])
+                if a == ["wild"] and b == ["wild"]:
+                    b = dc.var(fresh(t[2]))
+                body.append(["bi", ":match_pair", [dc.var(v), a, b]])
+                new = [a, b]
+                self.features.add("bi-match_pair")
+            elif t[0] == "L":
+                x = r.random()
+                if x < 0.45:
+                    a = dc.var(fresh(t[1]))
+                    body.append(["bi", ":list:member", [a, dc.var(v)]])
+                    new = [a]
+                    self.features.add("bi-list:member")
+                elif x < 0.9:
+                    a, b = out(t[1]), out(t)
+                    if a == ["wild"] and b == ["wild"]:
+                        a = dc.var(fresh(t[1]))
+                    body.append(["bi", ":match_cons", [dc.var(v), a, b]])
+                    new = [a, b]
+                    self.features.add("bi-match_cons")
+                    if b != ["wild"] and r.random() < 0.25:
+                        body.append(["nbi", ":match_nil", [b]])
+                        self.features.add("bi-not-match_nil")
+                else:
+                    body.append([r.choice(["bi", "nbi"]), ":match_nil", [dc.var(v)]])
+                    self.features.add("bi-match_nil")
+            elif t[0] == "S":
+                for l, ft in r.sample(list(t[1]), r.choice([1, 1, 2])):
+                    a = dc.var(fresh(ft))
+                    body.append(["bi", ":match_field", [dc.var(v), dc.cst(dc.name(l)), a]])
+                    new.append(a)
+                self.features.add("bi-match_field")
+            elif t[0] == "M":
+                a = dc.var(fresh(t[2]))
+                keyp = [p for p in lower if self.sig[p] == (t[1],)]
+                if keyp and r.random() < 0.45:
+                    kv = fresh(t[1])
+                    body.append(["atom", dc.atom(r.choice(keyp), dc.var(kv))])
+                    body.append(["bi", ":match_entry", [dc.var(v), dc.var(kv), a]])
+                    self.features.add("bi-match_entry-bound-key")
+                else:
+                    k = dc.name(r.choice(LABELS)) if t[1] == "A" else dc.num(r.choice([1, 2, 3]))
+                    body.append(["bi", ":match_entry", [dc.var(v), dc.cst(k), a]])
+                new = [a]
+                self.features.add("bi-match_entry")
+            nbi += 1
+            for a in new:
+                if a[0] == "var":
+                    outs.add(a[1])
+                    if not is_scalar(env[a[1]]):
+                        todo.append(a[1])
+        if nbi >= 2:
+            self.features.add("bi-chain>=2")
+        # side conditions as in the first-round shapes
+        ns = scal("N")
+        x = r.random()
+        if ns and x < 0.2:
+            body.append(["cmp", r.choice(["lt", "le", "gt", "ge"]), dc.var(r.choice(ns)), dc.cst(dc.num(r.choice([1, 2, 3, 5])))])
+            self.features.add("bi+cmp")
+        elif ns and x < 0.3:
+            w = fresh("N")
+            body.append(["eq", dc.var(w), dc.app(r.choice(["plus", "mult"]), dc.var(r.choice(ns)), dc.cst(dc.num(r.choice([1, 2]))))])
+            self.features.add("bi+eq")
+        elif x < 0.42:
+            cands = [p for p in plainp if all(scal(t) for t in self.sig[p])]
+            if cands:
+                p = r.choice(cands)
+                body.append(["neg", dc.atom(p, *[dc.var(r.choice(scal(t))) for t in self.sig[p]])])
+                self.features.add("bi+neg")
+        elif x < 0.5 and len(ns) >= 2:
+            a, b = r.sample(ns, 2)
+            body.append(["ineq", dc.var(a), dc.var(b)])
+            self.features.add("bi+ineq")
+        elif x < 0.62 and plainp:
+            add_atom(r.choice(plainp), join=0.9)
+            self.features.add("bi+join")
+        return body, env, outs
+
+    def pick(self, cands, outs, used=()):
+        """Prefer variables bound by a built-in output place."""
+        r = self.rng
+        cands = [v for v in cands if v not in used]
+        if not cands:
+            return None
+        pref = [v for v in cands if v in outs]
+        return r.choice(pref) if pref and r.random() < 0.8 else r.choice(cands)
+
+    def transform(self, env, outs, spec=None):
+        """keys + statements over the body's variables; spec = (key types, column specs) of an earlier rule of
+        the same head (then the same column types are produced). Returns (keys, stmts, hvars, spec, coltypes)."""
+        r = self.rng
+        sc = lambda t=None: [v for v, ty in env.items() if is_scalar(ty) and (t is None or ty == t)]
+        if spec is None:
+            nkeys = r.choice([0, 1, 1, 1, 2])
+            keytys = []
+            for _ in range(nkeys):
+                v = self.pick(sc(), outs)
+                if v is not None:
+                    keytys.append(env[v])
+            cols = []
+            for _ in range(r.choice([1, 1, 2, 3])):
+                x = r.random()
+                if x < 0.55 and sc("N"):
+                    cols.append(("N",))
+                elif x < 0.63 and sc("N"):
+                    cols.append(("F",))
+                else:
+                    k = 1 if r.random() < 0.7 else 2
+                    ts = []
+                    for _ in range(k):
+                        v = self.pick(sc(), outs)
+                        if v is not None:
+                            ts.append(env[v])
+                    if ts:
+                        cols.append(("C", tuple(ts)))
+            if not cols:
+                cols = [("N",)]
+            spec = (tuple(keytys), tuple(cols))
+        keys = []
+        for t in spec[0]:
+            v = self.pick(sc(t), outs, keys)
+            if v is None:
+                return None
+            keys.append(v)
+        nextv = [max(list(env) + [0]) + 100]
+
+        def fresh():
+            nextv[0] += 1
+            return nextv[0]
+        stmts, hvars, coltypes = [], [], list(spec[0])
+        for col in spec[1]:
+            v = fresh()
+            if col[0] == "N":
+                kind = r.choice(["count", "sum", "sum", "min", "max"])
+                if kind == "count" or not sc("N"):
+                    stmts.append(["reduce", v, "count", []])
+                else:
+                    stmts.append(["reduce", v, kind, [dc.var(self.pick(sc("N"), outs))]])
+                coltypes.append("N")
+                if r.random() < 0.1:
+                    w = fresh()
+                    stmts.append(["apply", w, dc.app("plus", dc.var(v), dc.cst(dc.num(1)))])
+                    v = w
+            elif col[0] == "F":
+                if not sc("N"):
+                    return None
+                stmts.append(["reduce", v, "avg", [dc.var(self.pick(sc("N"), outs))]])
+                coltypes.append("F")
+                self.features.add("avg")
+            else:
+                args = []
+                for t in col[1]:
+                    a = self.pick(sc(t), outs)
+                    if a is None:
+                        return None
+                    args.append(dc.var(a))
+                kind = r.choice(["collect", "collect_distinct", "collect_distinct"])
+                stmts.append(["reduce", v, kind, args])
+                self.features.add(kind)
+                et = col[1][0] if len(col[1]) == 1 else ("P", col[1][0], col[1][1])
+                coltypes.append(("L", et))
+            hvars.append(v)
+        for st in stmts:
+            for t in (st[3] if st[0] == "reduce" else []):
+                if t[0] == "var" and t[1] in outs:
+                    self.features.add("bi-output-reduced")
+        if any(k in outs for k in keys):
+            self.features.add("bi-output-as-key")
+        return keys, stmts, hvars, spec, coltypes
+
+    def layer(self, lower):
+        r = self.rng
+        nrules = r.choice([1, 1, 2, 2, 3])
+        spec, head, coltypes, made = None, None, None, []
+        for i in range(nrules):
+            for _try in range(8):
+                body, env, outs = self.body(lower, force_plain=(i > 0 and r.random() < 0.25))
+                res = self.transform(env, outs, spec)
+                if res is None:
+                    continue
+                keys, stmts, hvars, spec2, ct = res
+                if spec is None:
+                    spec, coltypes = spec2, ct
+                    head = self.new_pred(coltypes)
+                c = agg(head, [dc.var(k) for k in keys] + [dc.var(h) for h in hvars], body, keys, stmts)
+                made.append(c)
+                break
+        if not made:
+            return None
+        if len(made) >= 2:
+            self.features.add("bi-same-head>=2")
+        for c in made:
+            nb = sum(1 for p in c["body"] if p[0] in ("bi", "nbi"))
+            na = sum(1 for p in c["body"] if p[0] == "atom")
+            if nb == 0:
+                self.features.add("bi-mixed-plain-rule")
+            elif na == 1 and nb + na == len(c["body"]):
+                self.features.add("bi-single-premise-plus-builtin")
+            else:
+                self.features.add("bi-multi-premise")
+        self.clauses += made
+        self.layers.append([head])
+        return head
+
+    def program(self):
+        r = self.rng
+        self.base()
+        lower = list(self.sig)
+        aggs = []
+        for _ in range(r.choice([1, 2, 2, 3])):
+            # later layers see the aggregated heads (collected lists are destructured again)
+            h = self.layer(lower)
+            if h is not None:
+                lower.append(h)
+                if aggs and any(p[0] == "atom" and p[1]["p"] in aggs for c in self.clauses if c["head"]["p"] == h for p in c["body"]):
+                    self.features.add("bi-agg-over-agg")
+                aggs.append(h)
+        return {"clauses": self.clauses, "layers": self.layers, "init": self.init, "pre": [],
+                "features": sorted(self.features), "kind": "builtin"}
+
+
+def has_builtin_output_use(prog):
+    """Some aggregating rule uses, as group key or reducer argument, a variable that only a built-in atom binds."""
+    for c in prog["clauses"]:
+        d = c.get("do")
+        if not d or len(c["body"]) < 2:
+            continue
+        plain = set()
+        for p in c["body"]:
+            if p[0] == "atom":
+                for t in p[1]["args"]:
+                    dc.term_vars(t, plain)
+            elif p[0] == "eq":
+                dc.term_vars(p[1], plain), dc.term_vars(p[2], plain)
+        bi = set()
+        for p in c["body"]:
+            if p[0] == "bi":
+                for t in p[2]:
+                    dc.term_vars(t, bi)
+        used = set(d["keys"])
+        for st in d["stmts"]:
+            if st[0] == "reduce":
+                for t in st[3]:
+                    dc.term_vars(t, used)
+        if (bi - plain) & used:
+            return True
+    return False
+
+
+def gen_bi_program(rng):
+    for _ in range(30):
+        p = BiGen(rng).program()
+        if not any(c.get("do") for c in p["clauses"]):
+            continue
+        if hash_collisions([(dc.pred_name(f["p"]), f["args"]) for f in p["init"]]):
+            continue
+        if has_builtin_output_use(p):
+            return p
+    return p
+
+
+def witness_getvars():
+    """The seeded/C04-5 shapes: a group key and reducer arguments bound only by built-in output places."""
+    L, H, T, E, P, K, Vv, S = 1, 2, 3, 4, 5, 6, 7, 8
+    cl = [agg(3, [V(H), V(S)], [["atom", dc.atom(0, V(L))], ["bi", ":match_cons", [V(L), V(H), V(T)]]], [H],
+              [["reduce", S, "count", []]]),
+          agg(4, [V(S)], [["atom", dc.atom(0, V(L))], ["bi", ":list:member", [V(E), V(L)]]], [],
+              [["reduce", S, "sum", [V(E)]]]),
+          agg(5, [V(K), V(S)], [["atom", dc.atom(1, V(P))], ["bi", ":match_pair", [V(P), V(K), V(Vv)]]], [K],
+              [["reduce", S, "max", [V(Vv)]]]),
+          agg(6, [V(S)], [["atom", dc.atom(2, V(K), V(P))], ["bi", ":match_field", [V(P), dc.cst(dc.name("/a")), V(Vv)]]], [],
+              [["reduce", S, "collect_distinct", [V(Vv)]]]),
+          agg(7, [V(Vv), V(S)], [["atom", dc.atom(3, V(K), V(P))], ["bi", ":match_entry", [V(P), dc.cst(dc.name("/a")), V(Vv)]]], [Vv],
+              [["reduce", S, "min", [V(K)]]])]
+    init = [dc.fact(0, dc.lst([dc.num(1), dc.num(2)])), dc.fact(0, dc.lst([dc.num(3)])), dc.fact(0, dc.lst([dc.num(1)])),
+            dc.fact(1, dc.pair(dc.name("/a"), dc.num(10))), dc.fact(1, dc.pair(dc.name("/a"), dc.num(5))),
+            dc.fact(1, dc.pair(dc.name("/b"), dc.num(1))),
+            dc.fact(2, dc.num(1), strct([(dc.name("/a"), dc.num(4)), (dc.name("/b"), dc.num(2))])),
+            dc.fact(2, dc.num(2), strct([(dc.name("/a"), dc.num(5))])), dc.fact(2, dc.num(3), strct([(dc.name("/b"), dc.num(7))])),
+            dc.fact(3, dc.num(1), mapc([(dc.name("/a"), dc.num(4)), (dc.name("/b"), dc.num(2))])),
+            dc.fact(3, dc.num(2), mapc([(dc.name("/a"), dc.num(4))])), dc.fact(3, dc.num(3), mapc([(dc.name("/b"), dc.num(7))]))]
+    return {"clauses": cl, "layers": [[3], [4], [5], [6], [7]], "init": init, "pre": [], "features": ["witness-getVars"],
+            "kind": "builtin"}
 
 
 # ------------------------------------------------------------------ fixed witnesses
